@@ -170,7 +170,7 @@ def mon_c09(sc, prof, pairs):
         if i["step"] == "end": continue
         line = sc.lines[int(i["step"])]
         w = line.split()
-        trait_sort = (w[0] == "sort" and len(w) > 2 and w[2].startswith(("tsm_", "tvec_"))) or w[0] == "apply_index"
+        trait_sort = (w[0] == "sort" and len(w) > 2 and w[2].startswith(("tsm_", "tvec_"))) or w[0] in ("apply_index", "apply_index_reuse")
         if w[0] == "tcapacity" and i.get("parity", "").startswith("false"):
             out.append(Failure(sc, prof, i["step"], f"{line}: the SoAVec trait answers {i.get('ret')} where the inherent capacity() answers {i['parity'].split(':')[-1]}", "C09:tcapacity:parity", {"I": i["raw"]}))
         if not (w[0].startswith("t") and (w[0][1:] in ("push", "pop", "insert", "remove", "swap_remove", "replace", "truncate", "clear", "append", "split_off", "new", "get", "len")) or w[0] == "bounds" or trait_sort):
@@ -254,7 +254,9 @@ def mon_c07(sc, prof, pairs):
         regs = parse_regs(i["regs"])
         if not lockstep_ok(regs): return "fields out of lockstep after reordering"
         return None
-    return _same(sc, prof, pairs, "C07", ("sort", "apply_index", "swap"), fields=("status", "regs"), extra=extra)
+    out = _same(sc, prof, pairs, "C07", ("sort", "apply_index", "swap"), fields=("status", "regs"), extra=extra)
+    # a named mutable slice reordered through the trait still covers its elements afterwards (length, iteration)
+    return out + _same(sc, prof, pairs, "C07", ("apply_index_reuse",), fields=("status", "ret", "regs"), extra=extra)
 
 
 def mon_c10(sc, prof, pairs):
